@@ -354,7 +354,11 @@ class Storage(Machine):
                 ov, oc = rows[(n + 1) % len(rows)][1] if len(rows) > 1 else ("nordicsemi.com", "nRF54H20_sample_app")
                 lines += [f'# SB_CONFIG_SUIT_MPI_{tag}_VENDOR_NAME="{ov}"', f'#SB_CONFIG_SUIT_MPI_{tag}_CLASS_NAME="{oc}"',
                           f"# SB_CONFIG_SUIT_MPI_{tag}_EXTRA is not set", ""]
-        host.write(rel or f"{kname}.config", "\n".join(lines) + "\n")
+        # line endings as a checkout on another system leaves them (CR LF; the tool reads in text mode), and a last
+        # line without one
+        form = (len(kname) + len(rows)) % 4
+        eol = "\r\n" if form in (1, 2) else "\n"
+        host.write(rel or f"{kname}.config", (eol.join(lines) + ("" if form >= 2 and lines[-1] else eol)).encode())
 
     # -- mpi -----------------------------------------------------------------------------------------------------------
     def _mpi(self, host, model, op, prop):
